@@ -52,3 +52,51 @@ pub fn decode_recv_meta(len: u16, use_tos: bool, tos: u8, use_gro: bool, gro: u1
     assert!(meta.addr == SocketAddr::V4(std::net::SocketAddrV4::new(Ipv4Addr::from(src.to_ne_bytes()), port)));
     1 | (if use_tos { 2 } else { 0 }) | (if use_gro { 4 } else { 0 }) | (if use_pktinfo { 8 } else { 0 })
 }
+
+/// C19 ("the ECN codepoint ... conveyed", "control-message sizing"): the receive path hands the kernel
+/// a control buffer of `cmsg::LEN` bytes.  For the options `UdpSocketState::new` enables on Linux
+/// (SO_TIMESTAMPNS, UDP_GRO, IP_PKTINFO / IPV6_RECVPKTINFO, IP_RECVTOS / IPV6_RECVTCLASS) the kernel
+/// attaches, in this order, a timestamp, the GRO segment size (coalesced batches only), the packet
+/// info and the TOS / traffic class.  Every such set must fit - what does not fit is silently cut
+/// off (MSG_CTRUNC), and the last message is the one that carries the ECN codepoint.  The set is
+/// written with the crate's own `Encoder` (whose capacity assertion is the obligation) and read
+/// back with `decode_recv`.
+#[cfg(any(target_os = "linux", target_os = "android"))]
+pub fn recv_ctrl_capacity(v6: bool, ts: bool, secs: i64, nsecs: u32, gro: bool, seg: u16, tos: u8, ifindex: u32, dst4: u32, port: u16, src: u32) -> u32 {
+    if nsecs >= 1_000_000_000 || secs < 0 {
+        return 0;
+    }
+    let mut ctrl = cmsg::Aligned([0u8; cmsg::LEN]);
+    let mut hdr: libc::msghdr = unsafe { core::mem::zeroed() };
+    hdr.msg_control = ctrl.0.as_mut_ptr() as _;
+    hdr.msg_controllen = cmsg::LEN as _;
+    {
+        let mut enc = unsafe { cmsg::Encoder::new(&mut hdr) };
+        if ts {
+            enc.push(libc::SOL_SOCKET, libc::SCM_TIMESTAMPNS, libc::timespec { tv_sec: secs as _, tv_nsec: nsecs as _ });
+        }
+        if gro {
+            enc.push(libc::SOL_UDP, libc::UDP_GRO, seg as libc::c_int);
+        }
+        if v6 {
+            enc.push(libc::IPPROTO_IPV6, libc::IPV6_PKTINFO, libc::in6_pktinfo { ipi6_ifindex: ifindex as _, ipi6_addr: libc::in6_addr { s6_addr: [0; 16] } });
+            enc.push(libc::IPPROTO_IPV6, libc::IPV6_TCLASS, tos as libc::c_int);
+        } else {
+            enc.push(libc::IPPROTO_IP, libc::IP_PKTINFO, libc::in_pktinfo { ipi_ifindex: ifindex as _, ipi_spec_dst: libc::in_addr { s_addr: 0 }, ipi_addr: libc::in_addr { s_addr: dst4 } });
+            enc.push(libc::IPPROTO_IP, libc::IP_TOS, tos);
+        }
+        enc.finish();
+    }
+    let mut name = MaybeUninit::<libc::sockaddr_storage>::zeroed();
+    unsafe {
+        let sin = name.as_mut_ptr() as *mut libc::sockaddr_in;
+        (*sin).sin_family = libc::AF_INET as _;
+        (*sin).sin_port = port.to_be();
+        (*sin).sin_addr = libc::in_addr { s_addr: src };
+    }
+    let Ok(meta) = decode_recv(&name, &hdr, 1200) else { panic!("AF_INET source address must decode") };
+    assert!(meta.ecn == EcnCodepoint::from_bits(tos));
+    assert!(meta.stride == if gro { seg as usize } else { 1200 });
+    assert!(meta.timestamp.is_some() == ts);
+    (if v6 { 1 } else { 2 }) | (if gro { 4 } else { 0 }) | (if ts { 8 } else { 0 })
+}
